@@ -222,16 +222,17 @@ impl G {
       }
       envs.sort_by_key(|e| e.input);
       if reinscribe {
-        // the first envelope: first input, no pointer, no flaw
+        // exactly one envelope: first input, no pointer, no flaw (so the only question is what already sits on the sat)
         let l = envs[0].label.clone();
-        envs[0] = EnvSpec { label: l, input: 0, ..Default::default() };
+        envs = vec![EnvSpec { label: l, input: 0, ..Default::default() }];
       }
       for e in &envs {
         self.env_labels.push(e.label.clone());
       }
       // where the first envelope's inscription sits afterwards, if that is easy to tell
       if let Some(e) = envs.first() {
-        if e.input == 0 && e.pointer.is_none() && !e.even && ins[0].v > 0 && tx.outs.first().is_some_and(|o| o.v > 0 && o.t != "opret" && o.t != "stone") {
+        if envs.len() == 1 && !ins.iter().any(|u| self.first_sat_inscribed.contains_key(&u.label))
+          && e.input == 0 && e.pointer.is_none() && !e.even && ins[0].v > 0 && tx.outs.first().is_some_and(|o| o.v > 0 && o.t != "opret" && o.t != "stone") {
           let cursed_shape = e.dup || e.incomplete || e.pushnum || e.stutter;
           self.first_sat_inscribed.insert(format!("{label}:0"), cursed_shape);
         }
@@ -1001,6 +1002,41 @@ fn scenario(name: String, p: &ProtoCfg, steps: Vec<Step>) -> Scenario {
     max_savepoints: Some(p.ms),
     steps,
   }
+}
+
+/// C12 (and C05): a cursed first inscription, then -- one block later -- a clean reinscription of the same sat, which
+/// is blessed before the jubilee because the only earlier inscription on the sat is cursed. `split` decides whether
+/// the two blocks are indexed by one update (one commit batch under a large commit interval) or by two.
+pub fn reinscribe_cursed_case(tag: &str, p: &ProtoCfg, split: bool, shape: &str) -> Scenario {
+  let mut steps = Vec::new();
+  let cb = |i: usize| vec![OutSpec { v: SUBSIDY_UNITS, t: "tr".into(), s: (i % 3) as u32 }];
+  // twelve blocks first: below the savepoint interval, and whenever a savepoint is due, every block is committed on
+  // its own, so the two interesting blocks sit just after a savepoint height
+  for i in 0..12 {
+    steps.push(Step::Block(BlockSpec { id: format!("{tag}b{i}"), txs: vec![], cb: cb(i), ..Default::default() }));
+  }
+  steps.push(Step::Update);
+  let first = EnvSpec { label: format!("{tag}A"), input: 0, pushnum: shape == "pushnum", stutter: shape == "stutter", dup: shape == "dup", ..Default::default() };
+  steps.push(Step::Block(BlockSpec {
+    id: format!("{tag}b12"),
+    txs: vec![TxSpec { label: format!("{tag}ta"), ins: vec![format!("c{tag}b0:0")], outs: vec![OutSpec { v: SUBSIDY_UNITS, t: "tr".into(), s: 1 }], envs: vec![first], ..Default::default() }],
+    cb: cb(12),
+    ..Default::default()
+  }));
+  if split {
+    steps.push(Step::Update);
+  }
+  let second = EnvSpec { label: format!("{tag}B"), input: 0, ..Default::default() };
+  steps.push(Step::Block(BlockSpec {
+    id: format!("{tag}b13"),
+    txs: vec![TxSpec { label: format!("{tag}tb"), ins: vec![format!("{tag}ta:0")], outs: vec![OutSpec { v: SUBSIDY_UNITS, t: "tr".into(), s: 2 }], envs: vec![second], ..Default::default() }],
+    cb: cb(13),
+    ..Default::default()
+  }));
+  steps.push(Step::Update);
+  steps.push(Step::State);
+  steps.push(Step::Fresh { limit: None });
+  scenario(format!("{tag}-reinscribe-{shape}-{}-ci{}", if split { "apart" } else { "together" }, p.ci), p, steps)
 }
 
 fn light_cfg() -> GenCfg {
